@@ -191,6 +191,25 @@ func checkC08(c *run.Ctx) {
 			id := run.CaseID("prog", i)
 			c.Eval(1)
 			m := docToAny(tree).(*ordered.MapSA)
+			if i%3 == 1 && len(tree.Map) > 0 {
+				// built with the variadic constructor from a slice of pairs, one key given twice now and then (what that
+				// means is the constructor's business; the tree then follows what iteration shows)
+				var pairs []ordered.Tuple[string, any]
+				for _, p := range tree.Map {
+					pairs = append(pairs, ordered.Tuple[string, any]{Key: p.Key, Value: docToAny(p.Val)})
+				}
+				if r.IntN(2) == 0 {
+					j := r.IntN(len(pairs))
+					pairs = append(pairs, ordered.Tuple[string, any]{})
+					at := j + 1 + r.IntN(len(pairs)-j-1)
+					copy(pairs[at+1:], pairs[at:])
+					pairs[at] = ordered.Tuple[string, any]{Key: pairs[j].Key, Value: "given twice"}
+					c.Count("programmatic_maps_from_items_with_repeated_key", 1)
+				}
+				m = ordered.MapFromItems(pairs...)
+				tree = anyToDoc(m)
+				c.Count("programmatic_maps_from_items", 1)
+			}
 			// "built programmatically" includes deletions and in-place renames: apply a short
 			// history (always touching the first pair in one of the variants) to both the map
 			// and the tree, so that the encoders see tombstoned storage as well
